@@ -154,7 +154,7 @@ static void h_pfor_enc(const vcase *c) {
  * observable here: more than cap elements, width outside 1..8 with a non-zero
  * count, a value area reaching more than 2048 bytes past the input. */
 #define PFOR_DEC_CAP 4096
-static uint64_t dec_vals[PFOR_DEC_CAP + 1];
+static __thread uint64_t dec_vals[PFOR_DEC_CAP + 1]; /* per thread (--threads mode) */
 static void h_pfor_dec(const vcase *c) {
     size_t len;
     uint8_t *b = arg_hex(c, 0, &len);
